@@ -765,8 +765,9 @@ def run(chk, replay=None):
                 why = f"the loaded object cannot be saved by the model (`{resaved[:60]}`)"
             chk.count(f"accepted:{typ}:" + ("damaged-field-passed-over" if why else "another-spelling"))
             if why:
-                nrep[typ] = nrep.get(typ, 0) + 1
-                if nrep[typ] <= 2:
+                rkey = (typ, kind == "corpus")          # the regression inputs and what the search itself found
+                nrep[rkey] = nrep.get(rkey, 0) + 1
+                if nrep[rkey] <= 2:
                     chk.violation(
                         f"{typ}::load succeeded on a stream the format rejects ({kind}): the byte-level model of the "
                         f"extractors fails on it, the real load returned {'a model' if typ == 'lam' else 'true'} and "
